@@ -433,6 +433,7 @@ class Program:
         self.by_short = defaultdict(list)
         self.adts = {}
         self.meta = {}
+        raws = []
         for c in crates:
             path = os.path.join(facts_dir, 'mir-%s.json' % c)
             with open(path) as f:
@@ -441,8 +442,14 @@ class Program:
             for name, a in d['adts'].items():
                 self.adts[name] = a
             for rb in d['bodies']:
-                b = Body(rb, c)
-                self.bodies[b.id] = b
+                raws.append((rb, c))
+        # a known function that was renamed in place or moved to another module is given its known path back (inline.reconcile_renames)
+        import inline as _inl
+        self.known_functions = _inl.load_known(os.path.dirname(os.path.dirname(os.path.abspath(__file__))))
+        self.renamed = _inl.reconcile_renames([rb for rb, c in raws], self.known_functions)
+        for rb, c in raws:
+            b = Body(rb, c)
+            self.bodies[b.id] = b
         for b in self.bodies.values():
             if b.kind != 'Closure':
                 b.short = short_name(b.raw)
@@ -459,7 +466,7 @@ class Program:
         self._cg = None
         # functions the rules do not know (not in tables/known_functions.json) are inlined into their callers: see inline.py
         import inline
-        self.inlined = inline.apply(self, inline.load_known(os.path.dirname(os.path.dirname(os.path.abspath(__file__)))))
+        self.inlined = inline.apply(self, self.known_functions)
         for fid in sorted(self.inlined):
             fb = self.bodies.get(fid)
             if fb is None or not getattr(fb, 'inlined_everywhere', False):
